@@ -182,10 +182,10 @@ def cluster(b):
 SCOPES = {
     "quick": dict(Convs={100, 117, 120, 88, 111, 99, 115, 37, 102, 101}, FlagSets={0, 1, 2, 3, 5, 6, 10, 14}, Widths={900, 1, 3, 5, 901}, Precs={900, 0, 3},
                   Lens={"", "hh", "l", "ll", "L"}, Shapes={1, 2}, IntIdx={1, 2, 3, 6, 8, 9, 12}),
-    # sized to finish in well under an hour (about 15x the quick case space): every conversion, flag set and length modifier
-    "thorough": dict(Convs={100, 105, 117, 120, 88, 111, 99, 115, 37, 102, 70, 101, 69}, FlagSets=set(range(15)), Widths={900, 1, 5, 12, 901},
-                     Precs={900, 0, 1, 5, 901}, Lens={"", "hh", "h", "l", "ll", "j", "z", "t", "L"}, Shapes={1, 2, 3},
-                     IntIdx={1, 2, 3, 6, 8, 9, 12, 14}),
+    # sized to finish in well under an hour and in < 10 GB (about 6x the quick case space): every conversion and flag set; the j and t modifiers are in the C09 scope
+    "thorough": dict(Convs={100, 105, 117, 120, 88, 111, 99, 115, 37, 102, 70, 101, 69}, FlagSets=set(range(15)), Widths={900, 1, 5, 901},
+                     Precs={900, 0, 1, 5}, Lens={"", "hh", "h", "l", "ll", "z", "L"}, Shapes={1, 2, 3},
+                     IntIdx={1, 2, 3, 6, 8, 9, 12}),
 }
 
 
